@@ -114,7 +114,8 @@ class Plan:
 
     def describe(self):
         return {"part": "typed", "cls": self.key, "supplied": sorted(self.supplied), "variant": self.variant,
-                "extras": self.nextra, "all_defaults": self.all_defaults, "omit": self.omit}
+                "extras": self.nextra, "all_defaults": self.all_defaults, "omit": self.omit,
+                "passthrough": sorted(getattr(self, "passthrough", ()))}
 
 
 def build(plan):
@@ -129,6 +130,12 @@ def build(plan):
         if name == plan.omit:
             continue
         if acn is None:
+            # a declared argument without a table entry (drmp, ...) takes a ready-made AVP object, which belongs
+            # where the constructor declares the argument
+            if name in getattr(plan, "passthrough", ()):
+                x = Abs.generic(9000 + len(expected), 0x00, None, name.encode()[:7], "bytes")
+                kwargs[name] = x.build()
+                expected.append((name, x, None))
             continue
         supply = required or (name in plan.supplied) or (default is not None and not plan.all_defaults)
         if ref.get("app_arg") == name:
@@ -298,6 +305,12 @@ def plans_for(key, cls, tier):
                     yield Plan(key, cls, set(sub), variant, nextra)
     yield Plan(key, cls, set(), 0, 0, all_defaults=True)
     yield Plan(key, cls, set(optional), 0, 2, all_defaults=True)
+    tableless = [name for name, default in params_of(cls) if default is None and not avp_class_for(cls, name)]
+    for names in [[t] for t in tableless] + ([tableless] if len(tableless) > 1 else []):
+        for sub, nextra in ((set(), 0), (set(optional), 1)):
+            pl = Plan(key, cls, sub, 0, nextra)
+            pl.passthrough = set(names)
+            yield pl
     for name, default in params_of(cls):
         if default is None and name in cls.mandatory:
             yield Plan(key, cls, set(), 0, 0, omit=name)
@@ -462,6 +475,8 @@ def replay(w):
         classes = discover()
         plan = Plan(w["cls"], classes[w["cls"]], set(w["supplied"]), w["variant"], w["extras"],
                     w.get("all_defaults", False), w.get("omit"))
+        if w.get("passthrough"):
+            plan.passthrough = set(w["passthrough"])
         judge(rep, plan)
         try:
             msg, _e, _h = build(plan)
